@@ -36,7 +36,8 @@ class FnSpec(object):
     def __init__(self, qual, types=None, returns=None, requires=(), ensures=(), raises=None,
                  modifies=(), loops=None, inline=False, decreases=None, ghost_exit=None, at=None,
                  abstract=False, pure=False, yields=None, defs=None, lemmas=(), alloc_as=None,
-                 mutates=(), use=(), trusted=False, note=None, exc_post=None, dead_ok=()):
+                 mutates=(), use=(), trusted=False, note=None, exc_post=None, dead_ok=(), native_only=False):
+        self.native_only = native_only         # contract evaluated at run time only (bounded stand-in)
         self.dead_ok = list(dead_ok)           # statements allowed to be unreachable under the precondition
         self.qual = qual
         self.module, self.path = qual.split(":")
